@@ -21,7 +21,7 @@ struct Slot {
     /// (wall start, case, sequence number of the record, the worker's pthread id). The thread's CPU clock is
     /// NOT read when a case starts (a system call per case): the monitor reads it when it first sees a record
     /// that is more than a second old, and measures the CPU time burnt from then on.
-    cur: Mutex<Option<(Instant, String, u64, libc::pthread_t)>>,
+    cur: Mutex<Option<(Instant, String, u64, libc::pthread_t, u64)>>,
 }
 
 /// slowest completed case so far, in microseconds of wall time (reported in the evidence)
@@ -155,7 +155,7 @@ pub fn start(on_hang: impl Fn(String) + Send + 'static) {
             std::thread::sleep(Duration::from_millis(500));
             for (k, s) in table().iter().enumerate() {
                 let g = s.cur.lock().unwrap();
-                let Some((t, what, seq, tid)) = g.as_ref() else {
+                let Some((t, what, seq, tid, limit_s)) = g.as_ref() else {
                     seen[k] = None;
                     continue;
                 };
@@ -171,8 +171,8 @@ pub fn start(on_hang: impl Fn(String) + Send + 'static) {
                             _ => None,
                         };
                         let hang = match burnt {
-                            Some(ns) => ns > LIMIT_S * 1_000_000_000 || wall > Duration::from_secs(WALL_LIMIT_S),
-                            None => wall > Duration::from_secs(3 * LIMIT_S),
+                            Some(ns) => ns > *limit_s * 1_000_000_000 || wall > Duration::from_secs(WALL_LIMIT_S.max(30 * *limit_s)),
+                            None => wall > Duration::from_secs(3 * *limit_s),
                         };
                         if hang {
                             let w = what.clone();
@@ -196,7 +196,11 @@ pub fn case<T>(what: &str, f: impl FnOnce() -> T) -> T {
 /// Run one case under the watchdog and the crash journal. `tag` says how to probe the case again
 /// (the format name for string inputs, "fold:<format>" for JSON lexical values).
 pub fn tagged<T>(tag: &str, what: &str, f: impl FnOnce() -> T) -> T {
-    let _g = enter(what);
+    tagged_with_limit(tag, what, LIMIT_S, f)
+}
+
+pub fn tagged_with_limit<T>(tag: &str, what: &str, limit_s: u64, f: impl FnOnce() -> T) -> T {
+    let _g = enter_with_limit(|| what.to_string(), limit_s);
     let i = my_slot();
     if let Some(i) = i {
         journal_set(i, tag, what);
@@ -225,6 +229,16 @@ pub fn enter(what: &str) -> Guard {
 
 /// like `enter`, the label is only built if this guard turns out to be the outermost one
 pub fn enter_with(what: impl FnOnce() -> String) -> Guard {
+    enter_with_limit(what, LIMIT_S)
+}
+
+/// CPU budget of the few deliberately LARGE cases (towers thousands of levels deep, a batch of 17 million characters): on the
+/// pinned tree they need 1 - 7 s of CPU, which leaves too little room under the ordinary limit on an overloaded machine or
+/// for a benign change that costs a small factor
+pub const BIG_CASE_LIMIT_S: u64 = 120;
+
+/// like `enter_with`, with a CPU limit of the caller's (only the outermost guard's limit counts)
+pub fn enter_with_limit(what: impl FnOnce() -> String, limit_s: u64) -> Guard {
     let depth = DEPTH.with(|d| {
         let v = d.get();
         d.set(v + 1);
@@ -235,7 +249,7 @@ pub fn enter_with(what: impl FnOnce() -> String) -> Guard {
     }
     let Some(i) = my_slot() else { return Guard { outermost: None } };
     let t0 = Instant::now();
-    *table()[i].cur.lock().unwrap() = Some((t0, what(), NEXT.fetch_add(1, Ordering::Relaxed) as u64, unsafe { libc::pthread_self() }));
+    *table()[i].cur.lock().unwrap() = Some((t0, what(), NEXT.fetch_add(1, Ordering::Relaxed) as u64, unsafe { libc::pthread_self() }, limit_s));
     Guard { outermost: Some((i, t0)) }
 }
 
